@@ -29,13 +29,80 @@ static std::string obs(AJ::JsonVariantConst v) {
   return o;
 }
 
+
 static const uint8_t ROT[] = {SK_CHARPTR, SK_CHARARRAY, SK_STRING_VIEW, SK_JSONSTRING_COPIED, SK_JSONSTRING_LINKED, SK_STD,
 #ifdef VF_ARDUINO_SHIM
                               SK_FLASH, SK_ARDUINO_STRING, SK_FLASH, SK_ARDUINO_STRING,
 #endif
                               SK_CHARPTR, SK_STRING_VIEW};
 
+// Mode "sharing": hundreds (occasionally tens of thousands) of values share one copied string; users are then changed and
+// removed one by one - the others must stay intact, in lock-step with a replay that uses linked strings.
+static void sharing_case(Ctx& c, uint64_t index) {
+  Rng r(c.seed, 141, index);
+  static const char* pool[] = {"shared", "", "x", "a longer shared string value", "42"};
+  size_t n = (size_t)r.range(2, 700);
+  if (r.chance(1, 150) && kMaxSlots > 70000) n = (size_t)r.range(65530, 66100);   // beyond 16-bit counters
+  if (n + 8 > kMaxSlots) n = kMaxSlots - 8;
+  std::string s1 = r.pick(pool), s2 = std::string(r.pick(pool)) + "#";
+  StringArena arena;
+  AJ::JsonDocument A, B, C;
+  std::vector<MVal> model;
+  bool as_keys = r.chance(1, 4) && n < 300;
+  for (size_t i = 0; i < n; i++) {
+    const std::string& s = r.chance(1, 8) ? s2 : s1;
+    uint8_t rot = ROT[(index + i) % (sizeof ROT)];
+    if (as_keys) {
+      // the shared string is the value of many members AND (once) a key
+      std::string k = i == 0 ? s1 : "k" + std::to_string(i);
+      set_string_kind(A[k], s, SK_LINKED_CSTR, arena); set_string_kind(B[k], s, SK_STD, arena); set_string_kind(C[k], s, rot, arena);
+    } else {
+      AJ::JsonVariant a = A.add<AJ::JsonVariant>(), b = B.add<AJ::JsonVariant>(), cc = C.add<AJ::JsonVariant>();
+      set_string_kind(a, s, SK_LINKED_CSTR, arena); set_string_kind(b, s, SK_STD, arena); set_string_kind(cc, s, rot, arena);
+    }
+    model.push_back(MVal::str(s));
+  }
+  std::string wit = std::to_string(n) + " values sharing \"" + s1 + "\"" + (as_keys ? " (object members)" : " (array elements)");
+  if (c.want_sample()) c.sample(wit);
+  c.nontrivial(mix3(index, n, fnv1a(s1)));
+  auto compare = [&](const char* when) {
+    for (AJ::JsonDocument* d : {&A, &B, &C}) { Inspector::Snap sn = Inspector::inspect(*d); if (!sn.ok) { c.violation("structure", std::string(when) + ": " + sn.error, wit); return false; } }
+    std::string ja, jb, jc; AJ::serializeJson(A, ja); AJ::serializeJson(B, jb); AJ::serializeJson(C, jc);
+    if (ja != jb || jb != jc) { c.violation("sharing-visible", std::string(when) + ": the linked and the copied replays serialize differently (" + std::to_string(ja.size()) + " / " + std::to_string(jb.size()) + " / " + std::to_string(jc.size()) + " bytes)", wit); return false; }
+    if (!as_keys) {
+      size_t i = 0;
+      for (AJ::JsonVariantConst e : B.as<AJ::JsonArrayConst>()) {
+        if (i >= model.size()) break;
+        MVal y = extract(e); CmpOpt co;
+        if (!mv_equal(model[i], y, co)) { c.violation("sharing-visible", std::string(when) + ": element " + std::to_string(i) + " reads " + describe(y, 60) + ", expected " + describe(model[i], 60), wit); return false; }
+        i++;
+      }
+      if (i != model.size()) { c.violation("sharing-visible", std::string(when) + ": " + std::to_string(i) + " elements, expected " + std::to_string(model.size()), wit); return false; }
+    }
+    c.count("observation_vectors", 3);
+    return true;
+  };
+  if (!compare("after building")) return;
+  int ops = (int)r.range(3, 40);
+  for (int k = 0; k < ops; k++) {
+    if (as_keys) {
+      std::string key = r.chance(1, 5) ? s1 : "k" + std::to_string(r.below(n));
+      if (r.coin()) { A.remove(key); B.remove(key); C.remove(key); } else { A[key] = 7; B[key] = 7; C[key] = 7; }
+    } else {
+      if (model.empty()) break;
+      size_t i = (size_t)r.below(model.size());
+      unsigned w = (unsigned)r.below(3);
+      if (w == 0) { A.remove(i); B.remove(i); C.remove(i); model.erase(model.begin() + (long)i); }
+      else if (w == 1) { A[i] = (int)k; B[i] = (int)k; C[i] = (int)k; model[i] = MVal::sint(k); }
+      else { set_string_kind(A[i], s2, SK_LINKED_CSTR, arena); set_string_kind(B[i], s2, SK_STD, arena); set_string_kind(C[i], s2, SK_STRING_VIEW, arena); model[i] = MVal::str(s2); }
+    }
+    if ((k & 3) == 3 || k + 1 == ops) if (!compare("after changing some users")) return;
+  }
+  c.outcome(n > 60000 ? "sharing-65536+" : "sharing");
+}
+
 void vf_run_case(Ctx& c, uint64_t index) {
+  if (c.mode == "sharing") { sharing_case(c, index); return; }
   Rng r(c.seed, 14, index);
   HistOpt ho; ho.ndocs = (int)r.range(1, 2); ho.nrefs = 4; ho.key_pool = (int)r.range(2, 8); ho.max_nodes = 80; ho.numeric_strings_heavy = true; ho.deser = false; ho.binext = false;
   Model m(ho.ndocs, ho.nrefs);
